@@ -12,10 +12,10 @@ for d in sorted(glob.glob(os.path.join(ROOT, "seeded", "*"))):
     if not m.get("summary") and summ:
         m["summary"] = summ
         json.dump(m, open(os.path.join(d, "meta.json"), "w"), indent=1)
-    rows.append("| %s | %s | %s | %s |" % (m["id"], ", ".join(files), summ.replace("|", "\\|"), "caught by `./check %s quick`" % m["property"] if m.get("check_detects") else "**missed**"))
+    rows.append("| %s | %s | %s | %s |" % (m["id"], ", ".join(files), summ.replace("|", "\\|"), ("caught by `./check %s quick`" % m["property"] + (" (rebased patch)" if m.get("patch_used") == "patch.rebased.diff" else "")) if m.get("check_detects") else "**missed**"))
 table = "| id | files changed | what it breaks / what it needs to manifest | result |\n|---|---|---|---|\n" + "\n".join(rows)
 p = os.path.join(ROOT, "DESIGN.md")
 s = open(p).read()
-s = re.sub(r"<!-- SEEDED-TABLE -->.*?(?=\n---------)", "<!-- SEEDED-TABLE -->\n" + table + "\n", s, flags=re.S)
+s = re.sub(r"<!-- SEEDED-TABLE -->.*?(?=\n---------)", lambda m: "<!-- SEEDED-TABLE -->\n" + table + "\n", s, flags=re.S)
 open(p, "w").write(s)
 print(len(rows), "rows;", sum(1 for r in rows if "missed" in r), "missed")
